@@ -15,6 +15,9 @@ from .. import irutil, kinds
 from ..astkinds import AstKindProp
 from ..common import exc_kind
 
+import re
+
+_ADDR = re.compile(r" object at 0x[0-9a-fA-F]+>")
 EMITS = ("rest", "numpydoc", "class", "function", "method", "argparse")
 BODY_SRC = '''
 def call_peril(dataset_name="mnist", epochs=3):
@@ -204,7 +207,7 @@ class C13(AstKindProp):
         return fails
 
     # ---- shared AST --------------------------------------------------------------------------
-    def _ast_op(self, op, tree, ir):
+    def _ast_op_raw(self, op, tree, ir):
         """-> (result text, ir): one call of the history on `tree` / on the description parsed from it"""
         from doctrans import emit as E
         from doctrans import parse as P
@@ -224,6 +227,14 @@ class C13(AstKindProp):
         return kinds.to_source("argparse", E.argparse_function(ir, function_name="call_peril")), ir
 
     def oracle_ast(self, c, run):
+        return self._oracle_ast(c, run)
+
+    def _ast_op(self, op, tree, ir):
+        # (an object left in the description by a recorded defect prints with its memory address: not a difference)
+        text, ir = self._ast_op_raw(op, tree, ir)
+        return _ADDR.sub(" object>", text), ir
+
+    def _oracle_ast(self, c, run):
         src = c.get("src") or BODY_SRC
         tree = ast.parse(src).body[0]
         original = ast.dump(tree)
